@@ -162,9 +162,11 @@ def _get_paired_crop(
     """
     assert prediction_arr.shape == reference_arr.shape
 
-    combined = prediction_arr + reference_arr
-    if combined.sum() == 0:
-        combined += 1
+    # combine the foregrounds, not the label values: adding labels can wrap around in
+    # the arrays' dtype (e.g. 128 + 128 in uint8) and hide an instance from the crop
+    combined = np.logical_or(prediction_arr != 0, reference_arr != 0)
+    if not combined.any():
+        combined[...] = True
     return _get_bbox_nd(combined, px_dist=px_pad)
 
 
